@@ -5,6 +5,7 @@
    the contract (so the hypotheses are satisfiable and the driver's predictions are an instance),
    and the regenerated syntax table Gen/TlsCfg.v agrees with the model. *)
 From Coq Require Import List Bool Arith NArith ZArith String Lia.
+From Verif.Base Require Import Str.
 From Verif.Gen Require Import TlsCfg.
 From Verif.Model Require Import Tls.
 Import ListNotations.
@@ -361,8 +362,8 @@ Definition fld (fs : list (string * string)) (k : string) : option string :=
   option_map snd (find (fun kv => fst kv =? k) fs).
 Definition has (fs : list (string * string)) (k : string) : bool :=
   match fld fs k with Some _ => true | None => false end.
-Definition is_const (fs : list (string * string)) (k : string) (n : string) : bool :=
-  match fld fs k with Some v => v =? ("const " ++ n) | None => false end.
+Definition is_const (fs : list (string * string)) (k : string) (n : N) : bool :=
+  match fld fs k with Some v => v =? ("const " ++ show_N n) | None => false end.
 Definition is_expr (fs : list (string * string)) (k : string) : bool :=
   match fld fs k with Some v => v =? "expr" | None => false end.
 Definition only (fs : list (string * string)) (allowed : list string) : bool :=
@@ -372,19 +373,19 @@ Definition literal_ok (l : string * string * list (string * string)) : bool :=
   let '(pkg, typ, fs) := l in
   if (pkg =? "exporter") && (typ =? "tls.Config") then
     only fs ["Certificates"; "MinVersion"; "RootCAs"; "ServerName"] &&
-    is_expr fs "RootCAs" && is_expr fs "ServerName" && is_const fs "MinVersion" "771" &&
+    is_expr fs "RootCAs" && is_expr fs "ServerName" && is_const fs "MinVersion" c_tls_VersionTLS12 &&
     (negb (has fs "Certificates") || is_expr fs "Certificates")
   else if (pkg =? "collector") && (typ =? "tls.Config") then
     only fs ["Certificates"; "ClientAuth"; "ClientCAs"; "MinVersion"] &&
-    is_expr fs "Certificates" && is_const fs "MinVersion" "771" &&
+    is_expr fs "Certificates" && is_const fs "MinVersion" c_tls_VersionTLS12 &&
     Bool.eqb (has fs "ClientAuth") (is_expr fs "ClientCAs") && Bool.eqb (has fs "ClientAuth") (has fs "ClientCAs") &&
-    (negb (has fs "ClientAuth") || is_const fs "ClientAuth" "4")
+    (negb (has fs "ClientAuth") || is_const fs "ClientAuth" c_tls_RequireAndVerifyClientCert)
   else if (pkg =? "exporter") && (typ =? "dtls.Config") then
     only fs ["ExtendedMasterSecret"; "RootCAs"; "ServerName"] &&
-    is_expr fs "RootCAs" && is_expr fs "ServerName" && is_const fs "ExtendedMasterSecret" "1"
+    is_expr fs "RootCAs" && is_expr fs "ServerName" && is_const fs "ExtendedMasterSecret" c_dtls_RequireExtendedMasterSecret
   else if (pkg =? "collector") && (typ =? "dtls.Config") then
     only fs ["Certificates"; "ClientCAs"; "ExtendedMasterSecret"] &&
-    is_expr fs "Certificates" && is_expr fs "ClientCAs" && is_const fs "ExtendedMasterSecret" "1"
+    is_expr fs "Certificates" && is_expr fs "ClientCAs" && is_const fs "ExtendedMasterSecret" c_dtls_RequireExtendedMasterSecret
   else false.
 
 Definition class_present (pkg typ : string) : bool :=
